@@ -46,7 +46,8 @@ def waiters_pass_done(ws2: "InternalStepWorkerState", ws: "InternalStepWorkerSta
         and forall(
             len(ws.collected_waiters), lambda j: waiter_after(ws2.collected_waiters[j], ws.collected_waiters[j], ev)
         )
-        and (any_match(ws, ev) or (same(ws2.queue, ws.queue) and same(ws2.in_progress, ws.in_progress)))
+        # a step none of whose waiters matches is not touched at all by the waiter pass
+        and (any_match(ws, ev) or same(ws2, ws))
     )
 
 
@@ -171,10 +172,7 @@ class AddEventTick:
             )
             and (
                 exists(_i, lambda j: matches(pre(state.workers[step_name]).collected_waiters[j], tick.event))
-                or (
-                    same(state.workers[step_name].queue, pre(state.workers[step_name]).queue)
-                    and same(state.workers[step_name].in_progress, pre(state.workers[step_name]).in_progress)
-                )
+                or same(state.workers[step_name], pre(state.workers[step_name]))
             )
             and handled
             == (
